@@ -47,6 +47,8 @@ def run(ctx):
     res.rule("C15-R3", "conversion plumbing (/verif/spec/plumbing.json): each converted attribute depends on the listed TECMP getter and on no other TECMP getter")
     res.rule("C15-R4", "TECMP wire layout: C12's position/size rules over TECMP::CmpHeader and the four TECMP payload headers")
     res.rule("C15-R5", "one packet per bus-status entry: the entry loop pushes one payload per iteration and advances by the 12-byte entry size from offset 12")
+    res.rule("C15-R6", "complete frames only: GetHeader hands out the parsed header only under size >= sizeof(TECMP header) + announced payload length "
+                        "(a live comparison, as a linear form); every other path yields an invalid header, hence no packet")
     res.rule("C15-R7", "the converters of the supported kinds (CAN, CAN-FD, LIN, capture-module status, bus status) return a packet on every path: "
                         "unsupported or malformed input is rejected before conversion, never inside it")
     res.rule("C15-R8", "conversion is a function of the frame's bytes: no function reachable from TECMP::Decoder::Decode references a mutable static or "
@@ -222,6 +224,55 @@ def run(ctx):
                         ok = start == 12 and stride == 12 and L == 12 and exact
                         why = "entries at %d + %d*k, %d bytes each, loop continues while %d + %d*%s <= size" % (start, stride, L, bf[0], bf[1], v.split(":")[-1])
     res.check(ok, "C15-R5", "bus-status:entry-loop", gi.loc, "one payload per 12-byte entry, starting at offset 12", "bus-status entry loop: " + why)
+    # ---- R6 the frame is complete: the announced TECMP payload lies inside the buffer, measured behind the header
+    gh0 = fb.fn(TD + "GetHeader")
+    hsz = fb.record(TH)["size"]
+    sizep = [q["decl"] for q in gh0.params if q["t"].get("k") == "int" and q["t"].get("bits") == 64]
+    if len(sizep) != 1:
+        raise Broken("TECMP::Decoder::GetHeader: cannot identify the size parameter")
+    mfg = MustFacts(gh0)
+    acc = []
+    for r in gh0.returns():
+        v = strip_all_casts(r.get("e") or {})
+        while v.get("k") == "construct" and len(v.get("args", [])) == 1:
+            v = strip_all_casts(v["args"][0])
+        if v.get("k") == "ref" and v.get("dk") == "local":
+            acc.append(r)  # the parsed header is handed out (the other returns hand out an empty / default header)
+    if not acc:
+        raise Broken("TECMP::Decoder::GetHeader: no return that hands out the parsed header")
+    from rules.decoder_rules import _linear as _lin
+
+    def symsh(x):
+        if x.get("k") == "ref" and x.get("decl") == sizep[0]:
+            return "n"
+        if x.get("k") == "call" and callee_name(x) == TH + "::getPayloadLength":
+            return "L"
+        return None
+    for r in acc:
+        best = None
+        for a in mfg.at(r):
+            if a[0] != "cmp":
+                continue
+            l, rr = _lin(gh0, a[4], symsh), _lin(gh0, a[5], symsh)
+            if l is None or rr is None:
+                continue
+            d = dict(l)
+            for k2, v in rr.items():
+                d[k2] = d.get(k2, 0) - v
+            op = a[2]
+            if op in ("<=", "<"):
+                d = {k2: -v for k2, v in d.items()}
+                op = {"<=": ">=", "<": ">"}[op]
+            if op not in (">=", ">"):
+                continue
+            if op == ">":
+                d[1] = d.get(1, 0) - 1
+            if d.get("n") == 1 and d.get("L") == -1 and set(k2 for k2, v in d.items() if v) <= {"n", "L", 1}:
+                best = max(best, -d.get(1, 0)) if best is not None else -d.get(1, 0)
+        res.check(best is not None and best >= hsz, "C15-R6", "GetHeader:announced-length-inside@%s" % (r.get("loc") or "").split(":", 1)[-1], r.get("loc"),
+                  "header handed out only under size >= %d + announced payload length" % hsz,
+                  "GetHeader accepts a frame whose announced payload length is only bounded by size - %s (the TECMP header takes %d bytes): a frame cut "
+                  "short by up to %d bytes still yields packets" % (best if best is not None else "nothing", hsz, hsz))
     # ---- R4b position of the trailing checksum: right behind the announced data bytes
     from rules.decoder_rules import _linear
     for cls, lengetter in (("TECMP::LinPayload", "getDataLength"), ("TECMP::CanPayload", "getDlc")):
